@@ -15,6 +15,9 @@ def parseAtom (j : Json) : Except String Atom :=
   match j with
   | .null => .ok .none
   | _ =>
+    match j.getObjVal? "b" with
+    | .ok (.bool b) => .ok (.bool b)
+    | _ =>
     match j.getObjVal? "s" with
     | .ok (.str code) =>
       match code.toNat? with
@@ -34,7 +37,14 @@ def parseAtom (j : Json) : Except String Atom :=
           let isInt := match j.getObjVal? "int" with
             | .ok (.bool b) => b
             | _ => false
-          .ok (.num x isInt)
+          match j.getObjVal? "fl", j.getObjVal? "np" with
+          | .ok (.str fl), _ =>
+            -- an int no double holds exactly, with its float image
+            match parseRat? fl with
+            | some f => if x.den == 1 then .ok (.big x.num f) else .error "big int is not an integer"
+            | none => .error "bad float image"
+          | _, .ok (.str _) => if x.den == 1 then .ok (.npint x.num) else .error "numpy int is not an integer"
+          | _, _ => .ok (.num x isInt)
         | none => .error "bad number"
       | _ => .error s!"not an atom: {j.compress}"
 
@@ -190,6 +200,9 @@ def canonAtom : Atom → Json
   | .none => .null
   | .str s _ => Json.mkObj [("s", symJ s)]
   | .num q _ => Json.mkObj [("n", ratJ q)]
+  | .big n _ => Json.mkObj [("n", ratJ n)]
+  | .npint n => Json.mkObj [("n", ratJ n)]
+  | .bool b => Json.mkObj [("other", .str (if b then "True" else "False"))]
 
 def kindName : SeqKind → String
   | .list => "list" | .tuple => "tuple" | .nda => "nda"
